@@ -1,7 +1,8 @@
 import SlugModel.Lemmas.TrEq_splitSubPath
 import SlugModel.Lemmas.Local
+import SlugModel.Lemmas.TrEq_readRules
 /-!
-# C19 (tie by translation; the slices of `splitSubPath` are in range)
+# C19 (tie by translation; the slices of `splitSubPath` and the index expressions of `readRules` are in range)
 
 Tie by translation: the model function the theorems of this property are stated over equals the Lean
 translation of the Go function, regenerated from /repo on every run (harness/cmd/go2lean); a change of
@@ -11,6 +12,20 @@ The slice operations of `GoLib.lean` are total (`take`/`drop`), an index express
 panics in Go.  `C19_tie_splitSubPath_slices_in_range` shows, over the hand model that
 `C19_tie_splitSubPath` ties to the translation, that every position `splitSubPath` slices at lies
 within the string sliced, so the total reading and Go's agree and no slice expression panics.
+
+`readRules` (degenerate rule lines: blank, a lone `!`, a lone `/`, …): `C19_tie_readRules` ties the model's
+`readRules` to the translation.  The Go index expressions of the loop body — `pattern[0]` (three times),
+`pattern[1:]`, `pattern[len(pattern)-1]` — are only reached with a non-empty `pattern`: each comes after an
+`if len(pattern) == 0 { continue }` on the same value of `pattern`, or after `pattern` was extended from a
+non-empty value (in the translation: the `if ((Go.len pattern) == 0) then continue` lines before them; in the proof
+of `gen_readRules_lines` the cases `line = []`, `trimSpace line = []`, `rest = []` are closed before any
+`Go.byteAt` is looked at).  `C19_tie_readRules_indexes_guarded` gives the arithmetic: for a non-empty pattern
+those positions are within the pattern, and the pattern stays non-empty after the trailing-`/` rewriting.
+`C19_tie_readRules_rule_indexes_in_range`: the marking loop `for i := currentRuleIndex; i >= 0; i--`, started at
+`len(rules)-1` (the loop invariant of `gen_readRules_lines`), only visits positions of `rules`, so `rules[i]`
+does not panic either (an empty rule list included: no iteration).
+That the guards are where this paragraph says is read off the translated definition, not proved: the
+operations of `GoLib.lean` are total and the translation is stated over them.
 -/
 namespace Slug
 
@@ -52,6 +67,38 @@ theorem C19_tie_splitSubPath_slices_in_range (s : Str) :
   refine ⟨by omega, ?_⟩
   intro q hq
   have h4 := indexOf_bound _ _ _ hq
+  omega
+
+/-- **C19_tie_readRules.** The model's `readRules` is the translated `readRules`
+(internal/ignorefiles/terraformignore.go) on the lines of the content, for every content — blank lines, lines
+of spaces, a lone `!`, a lone `/` and the other degenerate rule lines included. -/
+theorem C19_tie_readRules (content : Str) :
+    Gen.readRules (scanLines content) = (readRules content, false) :=
+  gen_readRules content
+
+/-- **C19_tie_readRules_indexes_guarded.** For a non-empty `pattern`: `pattern[0]` and `pattern[1:]` are in
+range, `pattern[len(pattern)-1]` is in range, and after `if pattern[len(pattern)-1] == '/' { pattern += "**" }`
+the pattern is still non-empty, so the following `pattern[0]` and `pattern[1:]` are in range too. -/
+theorem C19_tie_readRules_indexes_guarded (p : Str) (h : p ≠ []) :
+    0 < Go.len p ∧ 1 ≤ Go.len p ∧ 0 ≤ Go.len p - 1 ∧ Go.len p - 1 < Go.len p ∧
+    1 ≤ Go.len (if (Go.byteAt p (Go.len p - 1) == '/') = true then p ++ ['*', '*'] else p) := by
+  have h0 : 0 < p.length := List.length_pos_iff.mpr h
+  refine ⟨?_, ?_, ?_, ?_, ?_⟩
+  · simp only [Go.len]; omega
+  · simp only [Go.len]; omega
+  · simp only [Go.len]; omega
+  · simp only [Go.len]; omega
+  · split
+    · simp only [Go.len, List.length_append]; omega
+    · simp only [Go.len]; omega
+
+/-- **C19_tie_readRules_rule_indexes_in_range.** The positions the marking loop visits when it starts at
+`len(rules)-1` are positions of `rules`. -/
+theorem C19_tie_readRules_rule_indexes_in_range (rules : List Rule) (i : Int)
+    (hi : i ∈ Go.rangeDown (Go.lenRules rules - 1)) : 0 ≤ i ∧ i < Go.lenRules rules := by
+  simp only [Go.lenRules, rangeDown_pred, List.mem_reverse, List.mem_map, List.mem_range] at hi ⊢
+  obtain ⟨k, hk, rfl⟩ := hi
+  simp only [Int.ofNat_eq_natCast]
   omega
 
 end Slug
